@@ -229,9 +229,14 @@ def scriptH : Handler := fun inp impl => do
   let okCase := match impl.getObjVal? "recased" with
     | .ok d => sameOutcome d impl
     | .error _ => true
+  -- the same commands as text through `NewTable` (shipped when the command language can carry them all)
+  let okText := match impl.getObjVal? "viaText" with
+    | .ok d => sameOutcome d impl
+    | .error _ => true
   let tag := if !okSpec then tag ++ "/spec-machine" else if !okDup then tag ++ "/add-not-idempotent"
-    else if !okCase then tag ++ "/host-case-sensitive" else if !okDerived then tag ++ "/derived-fields" else tag
-  return ({ model := m, agree, spec := okSpec && okDup && okCase && okDerived,
+    else if !okCase then tag ++ "/host-case-sensitive" else if !okDerived then tag ++ "/derived-fields"
+    else if !okText then tag ++ "/text-differs-from-commands" else tag
+  return ({ model := m, agree, spec := okSpec && okDup && okCase && okDerived && okText,
             nontrivial := (res.toOption.map (fun t => !t.isEmpty)).getD false, tag } : Verdict).toJson
 
 /-! ### c05.text -/
@@ -316,16 +321,28 @@ def implDefsSane (impl : Json) : Bool :=
       tokOK "service" && tokOK "src" && tokOK "dst" &&
       tags.all (fun t => !t.contains '"' && !t.contains ',' && trimSpace t == t))
 
+/-- print-then-parse: for a line the harness wrote from a definition (`want`, shipped for well-formed lines only),
+the real parser returned exactly that definition -/
+def wantOK (impl : Json) : Bool :=
+  match impl.getObjVal? "want" with
+  | .error _ => true
+  | .ok w => (impl.getObjVal? "defs").toOption == some (Json.arr #[w])
+
 def lineH : Handler := fun inp impl => do
   let o := oracleOf inp impl
   let pf := pfOf o
-  let line := strOfJson inp "line"
+  -- a line rendered by the harness from a structured definition travels on the implementation line
+  let line := match impl.getObjValAs? String "line" with
+    | .ok l => l.toList
+    | .error _ => strOfJson inp "line"
   let res := parse pf line
+  let okWant := wantOK impl
   let tag := lineTag res
+  let tag := if okWant then tag else tag ++ "/not-the-definition-written"
   let m : Json := match res with
     | .error e => Json.mkObj [("error", parseErrJson e)]
     | .ok ds => Json.mkObj [("defs", Json.arr (ds.map defJson).toArray)]
-  if tag == "outside-nonfinite-weight" then
+  if lineTag res == "outside-nonfinite-weight" then
     -- Go's Parse accepts the line: compare with the weight-blind parser, weights of flagged commands masked
     let mask := fun (j : Json) => match j.getObjValAs? String "weight" with
       | .ok w => if isNonFiniteStr w then j.setObjVal! "weight" "nonfinite" else j
@@ -337,11 +354,12 @@ def lineH : Handler := fun inp impl => do
     let implDefs := (impl.getObjValAs? (Array Json) "defs").toOption.map (fun a => Json.arr (a.map mask))
     let agree := (mw.getObjVal? "defs").toOption == implDefs &&
                  (mw.getObjVal? "error").toOption == (impl.getObjVal? "error").toOption
-    return ({ model := mw, agree, spec := implDefsSane impl, nontrivial := true, tag := "nonfinite-weight" } : Verdict).toJson
+    return ({ model := mw, agree, spec := implDefsSane impl && okWant, nontrivial := true,
+              tag := if okWant then "nonfinite-weight" else "nonfinite-weight/not-the-definition-written" } : Verdict).toJson
   let agree := (m.getObjVal? "defs").toOption == (impl.getObjVal? "defs").toOption &&
                (m.getObjVal? "error").toOption == (impl.getObjVal? "error").toOption
-  return ({ model := m, agree, spec := implDefsSane impl,
-            nontrivial := tag != "skip" && tag != "err-routeExpected", tag } : Verdict).toJson
+  return ({ model := m, agree, spec := implDefsSane impl && okWant,
+            nontrivial := !tag.startsWith "skip" && !tag.startsWith "err-routeExpected", tag } : Verdict).toJson
 
 /-! ### c05.roundtrip -/
 
@@ -412,8 +430,14 @@ def roundtripH : Handler := fun _inp impl => do
   let esc := anyTarget t (fun x => x.tags.any needsEscape)
   let rounded := anyTarget t (fun x => 0 < x.fixedWeight && round4Rat x.fixedWeight != x.fixedWeight)
   let neg := anyTarget t (fun x => x.fixedWeight < 0)
+  -- the text is a fixpoint once the weights have four decimals: the rebuilt table renders to the text of the
+  -- original with every weight rounded (`weight 0.0000` = no fixed weight is no longer written)
+  let okFix := match impl.getObjValAs? String "text2" with
+    | .ok t2 => t2.toList == render (t.map (fun kv => (kv.1, kv.2.map (fun r => { r with targets := r.targets.map norm4 }))))
+    | .error _ => true
   let (spec, tag) :=
-    if rtOK then (true, "rebuilt" ++ (if rounded then "+rounded" else "") ++ (if neg then "+neg" else ""))
+    if rtOK && !okFix then (false, "text-not-a-fixpoint")
+    else if rtOK then (true, "rebuilt" ++ (if rounded then "+rounded" else "") ++ (if neg then "+neg" else ""))
     else if differOnlyInWeight t then (true, "outside-two-targets-differ-only-in-weight")
     else if zero then (false, "zero-weight-not-rendered")
     else if emptyTag then (false, "single-empty-tag")
